@@ -6,7 +6,20 @@
     fields may differ, and the recompute heaps are unrelated; with [b = true] the node records are
     EQUAL and the heaps hold the same set (their layout and cursor may differ).  In both cases the
     logs are unrelated.  Every operation outside the passes maps related states to related states,
-    with the same result, and succeeds on the second state whenever it does on the first. *)
+    with the same result, and succeeds on the second state whenever it does on the first.
+
+    Layout: the relation [SR] and its primitive congruences; the heap operations ([sim_haip],
+    [sim_guard_add / _remove / _fix]: insertions, removals and fixes guarded by tests the relation
+    does not control -- staleness, membership); the side conditions [Good] (second heap well-formed
+    and holding only nodes with a height, heights >= -1, first heap holding only nodes with a
+    height); one simulation lemma per engine function ([sim_BNR], [sim_observe], [sim_zeroNode],
+    [sim_removeParents], [sim_unobserve], [sim_adjustLoop], [sim_addChild], [sim_setStale],
+    [sim_varSet], [sim_addInput], [sim_removeInput], [sim_newNode]), all for runs that return no
+    error; [sim_step] for whole operations (the same operation, or its erasure [erase_op]); the
+    admissibility checks [op_ok] / [op_clean] depend on the structure only ([op_checks_SR]); and
+    [wfb_Good] / [wfb_Quiet]: every state satisfying [wfb] and [BF] meets the side conditions.
+    Used by StaticHistory.v (C04, mixed serial / parallel histories, [b = true]) and TwinHistory.v
+    (C11, cutoff-free twins, [b = false]). *)
 From stdpp Require Import sorting.
 From incr Require Import Base Heap HeapSpec HeapProofs EngineDefs Engine EngineRun EngineWf.
 From incr Require Import EngineLemmas EngineInv PassInv PassProofs.
